@@ -83,6 +83,7 @@ package webserver
 //@   safe
 //@   props C17 C12
 //@   requires nonnil: w != nil && r != nil && r.URL != nil
+//@   requires unlocked: !held(group.groups.mu)
 //@   modifies *
 //@   -- C17: statistics are disclosed only to a server administrator
 //@   assert at call GetGroups admin: callresult("checkAdmin", 1)
@@ -92,6 +93,8 @@ package webserver
 //@   safe
 //@   props C17 C12
 //@   requires nonnil: w != nil && r != nil && r.URL != nil
+//@   -- an HTTP handler runs on a goroutine of its own and holds no lock when it starts
+//@   requires unlocked: !held(group.groups.mu)
 //@   modifies *
 //@   -- C17: every read or write of a group definition follows a successful administrator check for THAT group
 //@   assert at call GetDescriptionNames admin: callresult("checkAdmin", 1)
@@ -112,6 +115,7 @@ package webserver
 //@   safe
 //@   props C17 C12
 //@   requires nonnil: w != nil && r != nil && r.URL != nil
+//@   requires unlocked: !held(group.groups.mu)
 //@   modifies *
 //@   assert at call checkAdmin this-group: arg_groupname == g
 //@   assert at call GetUsers admin: callresult("checkAdmin", 1) && arg0 == g
@@ -121,6 +125,7 @@ package webserver
 //@   safe
 //@   props C17 C12
 //@   requires nonnil: w != nil && r != nil && r.URL != nil
+//@   requires unlocked: !held(group.groups.mu)
 //@   modifies *
 //@   assert at call checkAdmin this-group: arg_groupname == g
 //@
@@ -128,6 +133,8 @@ package webserver
 //@   safe
 //@   props C17 C12
 //@   requires nonnil: w != nil && r != nil && r.URL != nil
+//@   -- an HTTP handler runs on a goroutine of its own and holds no lock when it starts
+//@   requires unlocked: !held(group.groups.mu)
 //@   modifies *
 //@   assert at call checkAdmin this-group: arg_groupname == g
 //@   assert at call GetSanitisedUser admin: callresult("checkAdmin", 1) && arg0 == g
@@ -142,6 +149,8 @@ package webserver
 //@   safe
 //@   props C17 C12
 //@   requires nonnil: w != nil && r != nil && r.URL != nil
+//@   -- an HTTP handler runs on a goroutine of its own and holds no lock when it starts
+//@   requires unlocked: !held(group.groups.mu)
 //@   modifies *
 //@   -- C17: a password is changed only for an administrator or for the user presenting the current password of THAT user
 //@   assert at call checkAdmin this-group: arg_groupname == g
@@ -152,6 +161,8 @@ package webserver
 //@   safe
 //@   props C17 C12
 //@   requires nonnil: w != nil && r != nil && r.URL != nil
+//@   -- an HTTP handler runs on a goroutine of its own and holds no lock when it starts
+//@   requires unlocked: !held(group.groups.mu)
 //@   modifies *
 //@   assert at call checkAdmin this-group: arg_groupname == g
 //@   assert at call SetKeys admin: callresult("checkAdmin", 1) && arg0 == g
@@ -160,6 +171,7 @@ package webserver
 //@   safe
 //@   props C17 C12
 //@   requires nonnil: w != nil && r != nil && r.URL != nil
+//@   requires unlocked: !held(group.groups.mu)
 //@   modifies *
 //@   loopmodifies 1: full(toknames)
 //@   invariant loop 1 range: -1 <= rangeindex && rangeindex < len(tokens) && len(toknames) == len(tokens) && !isnil(toknames)
